@@ -419,3 +419,105 @@ func (n *xn) clone() *xn {
 	}
 	return &c
 }
+
+func coqBytes(s string) string {
+	var b strings.Builder
+	b.WriteString("[")
+	for i := 0; i < len(s); i++ {
+		if i > 0 {
+			b.WriteString("; ")
+		}
+		fmt.Fprintf(&b, "%d", s[i])
+	}
+	b.WriteString("]")
+	return b.String()
+}
+
+func coqBool(b bool) string {
+	if b {
+		return "true"
+	}
+	return "false"
+}
+
+func coqOpt(n *xn) string {
+	if n == nil {
+		return "None"
+	}
+	return "(Some " + n.coq() + ")"
+}
+
+func coqParams(ps []xparam) string {
+	var out []string
+	for _, q := range ps {
+		name := "None"
+		if q.Name != nil {
+			name = "(Some " + coqBytes(*q.Name) + ")"
+		}
+		out = append(out, "("+name+", "+coqOpt(q.T)+")")
+	}
+	return "[" + strings.Join(out, "; ") + "]"
+}
+
+// coq writes the tree as a Coq term of type ex.
+func (n *xn) coq() string {
+	switch n.K {
+	case "I":
+		return fmt.Sprintf("(XIdent %d %s)", n.P, coqBytes(n.S))
+	case "L":
+		return fmt.Sprintf("(XLit %d %d %s)", n.P, n.LK, coqBytes(n.S))
+	case "U":
+		return fmt.Sprintf("(XUn %d %d %s)", n.P, n.Op, n.X.coq())
+	case "B":
+		return fmt.Sprintf("(XBin %d %d %s %s)", n.P, n.Op, n.X.coq(), n.Y.coq())
+	case "C":
+		var as []string
+		for _, a := range n.Args {
+			as = append(as, a.coq())
+		}
+		return fmt.Sprintf("(XCall %d %s [%s] %s)", n.P, n.X.coq(), strings.Join(as, "; "), coqBool(n.V))
+	case "X":
+		return fmt.Sprintf("(XIndex %d %s %s)", n.P, n.X.coq(), n.Y.coq())
+	case "S":
+		return fmt.Sprintf("(XSlicing %d %s %s %s %s %s)", n.P, n.X.coq(), coqOpt(n.Y), coqOpt(n.Z), coqOpt(n.W), coqBool(n.Full))
+	case "D":
+		return fmt.Sprintf("(XSel %d %s %s)", n.P, n.X.coq(), coqBytes(n.S))
+	case "A":
+		return fmt.Sprintf("(XTypeAssert %d %s %s)", n.P, n.X.coq(), coqOpt(n.Y))
+	case "K":
+		var kvs []string
+		for _, kv := range n.KVs {
+			kvs = append(kvs, "("+coqOpt(kv.K)+", "+kv.V.coq()+")")
+		}
+		return fmt.Sprintf("(XCompLit %d %s [%s])", n.P, coqOpt(n.X), strings.Join(kvs, "; "))
+	case "M":
+		return fmt.Sprintf("(XMap %d %s %s)", n.P, coqOpt(n.Y), n.X.coq())
+	case "s":
+		return fmt.Sprintf("(XSlice %d %s)", n.P, n.X.coq())
+	case "a":
+		return fmt.Sprintf("(XArray %d %s %s)", n.P, coqOpt(n.Y), n.X.coq())
+	case "c":
+		return fmt.Sprintf("(XChan %d %d %s)", n.P, n.Dir, n.X.coq())
+	case "F":
+		return fmt.Sprintf("(XFunc %d %s %s %s %s)", n.P, coqBool(n.Macro), coqParams(n.Params), coqParams(n.Res), coqBool(n.V))
+	case "T":
+		var fs []string
+		for _, f := range n.Fields {
+			var names []string
+			for _, a := range f.Names {
+				names = append(names, coqBytes(a))
+			}
+			fs = append(fs, fmt.Sprintf("([%s], %s, %s)", strings.Join(names, "; "), f.T.coq(), coqBytes(f.Tag)))
+		}
+		return fmt.Sprintf("(XStruct %d [%s])", n.P, strings.Join(fs, "; "))
+	case "N":
+		return fmt.Sprintf("(XInterface %d)", n.P)
+	case "d":
+		return fmt.Sprintf("(XDefault %d %s %s)", n.P, n.X.coq(), n.Y.coq())
+	case "R":
+		return fmt.Sprintf("(XRender %d %s)", n.P, coqBytes(n.S))
+	case "f":
+		return fmt.Sprintf("(XFuncLit %d)", n.P)
+	}
+	panic("xn.coq: kind " + n.K)
+}
